@@ -23,6 +23,8 @@ def check(ctx):
     scope = _http.parse_scope(ctx)
     ctx.floor("scope", len(scope), 15)
     _http.delete_discipline(ctx, "T1-consume")
+    ctx.rule("T4-consumers", "bytes are removed from the receive buffers only by the parser primitives")
+    ctx.floor("T4-consumers:sites", _http.buffer_consumers(ctx, "T4-consumers"), 7)
     ctx.rule("T1-scan", "delimiter searches cover the whole unconsumed buffer (resume offsets reset on consumption and back up over a straddling delimiter)")
     ctx.rule("T1-wait", "a buffer prefix is read only after the parser established that many bytes are present")
     _http.scan_offsets(ctx, "T1-scan")
